@@ -18,7 +18,7 @@ MODEL_OPS = {"tokens", "tokeq", "qexport", "vcollide", "dictrt", "digest"}
 ERR_CLASS = False
 RULE = ("one case = one operation line. obj: ONE generated object (class x parent situation x seed x profile) taken "
         "through to_dict/from_dict (+ through JSON text, + with every GUID key blanked), Schema().load/dump through "
-        "JSON, pickle (AnnotationCollection), re-ordered qualifier/value/feature-type insertion, one-coordinate / "
+        "JSON, pickle (AnnotationCollection; re-exported parent dict compared), member sequences (spliced, CDS, reference) against brute-force expectations from the plain genome string before and after every round trip, re-ordered qualifier/value/feature-type insertion, one-coordinate / "
         "strand / one-frame perturbations, chunk-vs-chromosome twin. sweep: the GUID trees + digest token streams of "
         "16 x count objects recomputed in subprocesses under other PYTHONHASHSEEDs. tokens/tokeq: "
         "_encode_object_for_digest on a (nested) value / on a value and a deep re-ordering of it. dictrt/digest: "
@@ -329,7 +329,7 @@ def cases(run):
     EXHAUSTIVE_NOTE = ("tokens: every ordered pair of 12 atoms as a set / list / dict values; tokeq: every ordered pair "
                        "of 6 keys; qexport: every ordered triple of 9 values; vcollide: EVERY pair of variants "
                        f"0 <= s < e <= {400 if thorough else 250} whose coordinates concatenate to the same digits; obj: "
-                       f"8 classes x 4 parent situations x 5 profiles x seeds 0..{len(fixed) - 1} (seed independent)")
+                       f"8 classes x 6 parent situations (none, sequence-less, chromosome, chromosome without id, plus-strand chunk, MINUS-strand chunk; chunk windows containing or cutting the content) x 5 profiles x seeds 0..{len(fixed) - 1} (seed independent)")
     yield from _vcollide_cases(run, 400 if thorough else 250)
     yield from _obj_cases(run, fixed)
     # empty collection / variants-only collection (F-C19f) are reached through the generator's shapes; make sure
